@@ -28,6 +28,13 @@ import (
 
 var names = []string{"a", "b", "c"}
 
+// names of targets whose description never arrives (their server has no reflection service): removed before any
+// description was delivered, they must be addable again like any other
+var silentNames = []string{"n1", "n2"}
+var noReflect *bufconn.Listener
+
+func isSilent(name string) bool { return strings.HasPrefix(name, "n") }
+
 type sts struct{ method string }
 
 func (s *sts) Method() string               { return s.method }
@@ -182,17 +189,47 @@ func routerHistories(w *vc.Writer, r *vc.Rand, lis *bufconn.Listener) {
 				if failNext {
 					return nil, errors.New("scripted constructor failure")
 				}
+				if target == "passthrough:///noreflect" {
+					opts = append(append([]grpc.DialOption{}, opts...), dialer(noReflect)...)
+				}
 				return grpc.NewClient(target, opts...)
 			}))
 		present := map[string]bool{}
 		ops, outs := vc.L{}, vc.L{}
 		fails, removes := 0, 0
-		for i := 0; i < 1+rr.Intn(12); i++ {
-			name := rr.Pick(names)
-			if rr.Chance(60) {
-				failNext = rr.Chance(30)
+		// scripted histories run first: a target removed before any description was delivered is added again
+		type pstep struct {
+			add  bool
+			name string
+			fail bool
+		}
+		scripts := [][]pstep{
+			{{true, "n1", false}, {false, "n1", false}, {true, "n1", false}, {false, "n1", false}, {true, "n1", false}},
+			{{true, "a", false}, {true, "n1", false}, {false, "n1", false}, {true, "n1", false}, {false, "a", false}, {true, "a", false}},
+			{{true, "n1", true}, {true, "n1", false}, {false, "n1", false}, {true, "n1", false}, {true, "n2", false}, {false, "n2", false}, {true, "n2", false}},
+		}
+		var plan []pstep
+		if h < len(scripts) {
+			plan = scripts[h]
+		} else {
+			for i := 0; i < 1+rr.Intn(12); i++ {
+				name := rr.Pick(names)
+				if rr.Chance(30) {
+					name = rr.Pick(silentNames)
+				}
+				plan = append(plan, pstep{rr.Chance(60), name, rr.Chance(30)})
+			}
+		}
+		for _, st := range plan {
+			name := st.name
+			dial := "passthrough:///x"
+			if isSilent(name) {
+				dial = "passthrough:///noreflect"
+			}
+			if st.add {
+				failNext = st.fail
 				ops = append(ops, vc.L{4, name, failNext})
-				ok, err := router.Add(name, "passthrough:///x")
+				ok, err := router.Add(name, dial)
 				res := 0
 				if ok && err == nil {
 					res = 1
@@ -207,7 +244,7 @@ func routerHistories(w *vc.Writer, r *vc.Rand, lis *bufconn.Listener) {
 			// before removing a present target: open an in-flight call through the router, if it is routable by now
 			var inflight grpcadapter.ClientStream
 			var conn grpcadapter.ClientConn
-			if present[name] {
+			if present[name] && !isSilent(name) {
 				deadline := time.Now().Add(3 * time.Second)
 				for time.Now().Before(deadline) {
 					c, _, err := router.RouteGRPC(grpc.NewContextWithServerTransportStream(context.Background(), &sts{method: "/grpcbridge.internal.bridgetest.testpb.TestService/BiDiFlow"}))
@@ -339,6 +376,13 @@ func main() {
 	reflection.Register(srv)
 	go srv.Serve(lis)
 	defer srv.Stop()
+	// a target that answers but has no reflection service: polls fail at once, no description is ever delivered
+	lisNR := bufconn.Listen(1 << 20)
+	srvNR := grpc.NewServer()
+	testpb.RegisterTestServiceServer(srvNR, testpb.NewTestService())
+	go srvNR.Serve(lisNR)
+	defer srvNR.Stop()
+	noReflect = lisNR
 	switch os.Args[2] {
 	case "pool":
 		poolHistories(w, r, lis)
